@@ -54,13 +54,13 @@ Proof. exact dict_history_batches. Qed.
 (* within a batch: a pushed value is appended as its text (or null) and no earlier row changes,
    whether the string was already in the table or not; every emitted key is inside the values *)
 Theorem C10_dictionary_push : forall v d d' lvs nm key val nullable kv kvals,
-  DInv d -> d_keys d = BdPrim key kv kvals -> vnull (mkField nm (DDict key val) nullable) kv ->
+  DInv d -> d_keys d = BdPrim (PInt key) kv kvals -> vnull (mkField nm (DDict key val) nullable) kv ->
   dict_content d = Some lvs -> dict_push v d = Ok d' ->
   exists lv, interp (mkField nm (DDict key val) nullable) v = IOk lv /\ dict_content d' = Some (lvs ++ [lv]).
 Proof. exact dict_push_content. Qed.
 
 Theorem C10_dictionary_well_formed : forall strict d nm nullable, DInv d ->
-  forall k kv kvals vk offs data, d_keys d = BdPrim k kv kvals -> d_values d = BdUtf8 vk None offs data ->
+  forall k kv kvals vk offs data, d_keys d = BdPrim (PInt k) kv kvals -> d_values d = BdUtf8 vk None offs data ->
   vnull (mkField nm (DDict k vk) nullable) kv -> is_utf8_kind vk = true ->
   wf_arr strict (mkField nm (DDict k vk) nullable) (dict_arr d) = true.
 Proof. exact dict_wf. Qed.
